@@ -1,4 +1,5 @@
 import ScalesModel.Proofs.LBInv
+import ScalesModel.Proofs.LBTotal
 import Mathlib.Data.List.Perm.Subperm
 
 /-!
@@ -247,6 +248,8 @@ theorem RInv.step {cfg : Cfg} {p p' : Proto} {lb : St} (h : RInv cfg p lb) (op :
           exact stepRef_congr c (.leave ep) x
         · cases hp
     | get e => exact RInv.step_other h f eff (by simpa [protoStep] using hp)
+    | getd e => exact RInv.step_other h f eff (by simpa [protoStep] using hp)
+    | expire k => exact RInv.step_other h f eff (by simpa [protoStep] using hp)
     | put r j e => exact RInv.step_other h f eff (by simpa [protoStep] using hp)
     | chan nid s => exact RInv.step_other h f eff (by simpa [protoStep] using hp)
     | opened nid ok e => exact RInv.step_other h f eff (by simpa [protoStep] using hp)
@@ -355,23 +358,43 @@ theorem c06At_ok (cfg : Cfg) (idx : Nat) (lb : St) (res : List ResV) (h : Full c
 
 theorem Verdict.ok_and (f : Unit → Verdict) : Verdict.and .ok f = f () := rfl
 
+theorem c06Total_ok (cfg : Cfg) (idx : Nat) (lb : St) (res : List ResV) (t : TInv cfg lb.sub) :
+    c06Total cfg idx (flagsOf lb.sub.hs) (obsOf lb res) = .ok := by
+  unfold c06Total
+  have : (obsOf lb res).total = lb.sub.total := rfl
+  rw [this, t]; simp
+
 theorem specC06_trace (cfg : Cfg) (ops : List Op) : ∀ (p : Proto) (lb : St) (idx : Nat), RInv cfg p lb →
-    protoOk p ops = true → specC06Go cfg idx (comp6.trace cfg lb ops) = .ok := by
+    TInv cfg lb.sub → protoOk p ops = true →
+    specC06Go cfg idx (flagsOf lb.sub.hs) (comp6.trace cfg lb ops) = .ok := by
   induction ops with
-  | nil => intro p lb idx _ _; rfl
+  | nil => intro p lb idx _ _ _; rfl
   | cons op ops ih =>
-    intro p lb idx h hp
+    intro p lb idx h t hp
     simp only [protoOk] at hp
     cases hps : protoStep p op with
     | none => rw [hps] at hp; cases hp
     | some p' =>
       rw [hps] at hp
       obtain ⟨h', _, _⟩ := h.step op hps
+      obtain ⟨t1, t2⟩ := total_step cfg lb op
       simp only [TComp.trace]
-      show specC06Go cfg idx ((op, (step cfg lb op).2) :: comp6.trace cfg (step cfg lb op).1 ops) = .ok
+      show specC06Go cfg idx (flagsOf lb.sub.hs)
+        ((op, (step cfg lb op).2) :: comp6.trace cfg (step cfg lb op).1 ops) = .ok
       simp only [specC06Go, step]
-      rw [c06At_ok cfg idx _ _ h'.full, Verdict.ok_and]
-      exact ih p' _ (idx + 1) h' hp
+      rw [c06At_ok cfg idx _ _ h'.full, Verdict.ok_and, ← t1, c06Total_ok cfg idx _ _ (t2 t), Verdict.ok_and]
+      exact ih p' _ (idx + 1) h' (t2 t) hp
+
+theorem TInv.init (cfg : Cfg) : TInv cfg (init cfg).sub := by
+  unfold TInv expectedTotal flagsOf
+  show (0 : Int) = if cfg.aperture = true then (((([] : List (Nat × Bool)).map (·.2)).count false : Nat) : Int) else 0
+  split <;> rfl
+
+/-- every run: `_total` is the number of open dispatches -/
+theorem run_TInv (cfg : Cfg) (ops : List Op) : ∀ (lb : St), TInv cfg lb.sub → TInv cfg (runSt cfg lb ops).sub := by
+  induction ops with
+  | nil => intro lb t; exact t
+  | cons op ops ih => intro lb t; exact ih _ ((total_step cfg lb op).2 t)
 
 theorem RInv.quiescent {cfg : Cfg} {p : Proto} {lb : St} (h : RInv cfg p lb) (hi : lb.initDone = true) :
     ∀ x, x ∈ lb.sub.hs.servers ↔ x ∈ p.ref := by
